@@ -1,7 +1,9 @@
 /- Property C07: the property theorems (and nothing else). -/
 import Frugal.Proofs.BitsetLemmas
 import Frugal.Proofs.BuildCacheLemmas
-import Frugal.Props.Instances
+import Frugal.Props.Inst.F_facts_buildProtocol
+import Frugal.Props.Inst.F_facts_rollback
+import Frugal.Props.Inst.F_valid_bitset
 namespace Frugal.C07
 open Frugal
 /-- the required-field verdict is independent of the pooled presence set's prior contents -/
